@@ -117,6 +117,13 @@ CLAIMED = {
             'for partial reads (4 findings).', 'Three-or-more cuts follow by induction from the proved state equality after a partial read (buffer = prefix, clean header) - '
             'stated, not mechanised. Decoder abstracted (returns a message for any non-empty PDU); binary frames without delimiter bytes. A1-A10; z3/cvc5.',
             'contract-based deductive verification (pyvc VC generation from /repo AST + z3/cvc5)', 'DESIGN.md section 4 C06'),
+    'C11': ('proof', 'Per-call obligations proved with all frame contents symbolic: a complete RTU/binary frame whose CRC does not match is discarded and leaves the '
+            'receiver at a frame boundary (buffer empty, header reset); a valid frame for a foreign unit likewise (all three framers); noise without a start delimiter in '
+            'front of a valid ASCII/binary frame is skipped and the frame behind it delivered by the same read; from the boundary state the next valid frame is delivered. '
+            'Two known findings (ASCII keeps a failed frame forever; RTU sticky KeyError after a short read on a cleared header).',
+            'The composed bounded-future statement (recovery within two maximum-size frames after arbitrary garbage, bounded backlog) is a BOUNDED stand-in: an executable '
+            'twin over a garbage alphabet followed by valid frames one per read, never counted as proved. Decoder abstracted; binary frames without delimiter bytes.',
+            'contract-based deductive verification (pyvc) for the per-call obligations + bounded twin for the composition', 'DESIGN.md section 4 C11'),
 }
 NOT_YET = 'check not built yet at this commit (planned: contract-based, see DESIGN.md section 4)'
 ALL = ['C%02d' % i for i in range(1, 21)]
